@@ -1,0 +1,41 @@
+//go:build verif
+
+package limits
+
+import "github.com/foxcpp/maddy/internal/limits/limiters"
+
+// Export shims for the /verif session harness (build tag verif only).
+
+func verifSessionSum(l limiters.L) int {
+	switch v := l.(type) {
+	case limiters.Semaphore:
+		return v.VerifSessionInUse()
+	case *limiters.Semaphore:
+		return v.VerifSessionInUse()
+	case *limiters.MultiLimit:
+		n := 0
+		for _, w := range v.Wrapped {
+			n += verifSessionSum(w)
+		}
+		return n
+	}
+	return 0
+}
+
+// VerifSessionInUse returns the concurrency permits in use per scope
+// ("all", "ip", "source", "destination"), summed over all keys, and per key
+// ("source/example.org").
+func (g *Group) VerifSessionInUse() map[string]int {
+	res := map[string]int{"all": verifSessionSum(&g.global), "ip": 0, "source": 0, "destination": 0}
+	for name, bs := range map[string]*limiters.BucketSet{"ip": g.ip, "source": g.source, "destination": g.dest} {
+		if bs == nil {
+			continue
+		}
+		bs.VerifSessionEach(func(key string, l limiters.L) {
+			n := verifSessionSum(l)
+			res[name] += n
+			res[name+"/"+key] = n
+		})
+	}
+	return res
+}
